@@ -121,8 +121,12 @@ pub struct Script {
     /// reducer `rgate_idx` parks at this gate
     pub rgate: u8,
     pub rgate_idx: u32,
-    /// middleware with this index parks at gate `rgate` in before_reduce (255: none)
+    /// middleware with this index parks at gate `rgate` (255: none) in hook `mgate_hook`
+    /// (0 before_reduce, 1 before_effect)
     pub mgate_idx: u8,
+    pub mgate_hook: u8,
+    /// before_effect of middleware m inserts one Task effect at the front of the list
+    pub mw_insert: [bool; 3],
     /// gated subscribers park for this action
     pub sgate: bool,
     /// middleware 0 dispatches this many follow-ups synchronously from before_reduce
@@ -141,6 +145,8 @@ impl Script {
             rgate: NOGATE,
             rgate_idx: 0,
             mgate_idx: 255,
+            mgate_hook: 0,
+            mw_insert: [false; 3],
             sgate: false,
             mw_dispatch: 0,
             mw_dispatch_script: 0,
@@ -387,7 +393,7 @@ impl Middleware<St, Act> for ScriptedMw {
         let c = &self.ctx;
         let sc = c.script(act.script);
         c.evz(K::MBeg, self.store, act.id, self.idx * 4, st.digest(), st.steps, st.valid() as u8, act.script);
-        if sc.mgate_idx as u32 == self.idx && sc.rgate != NOGATE {
+        if sc.mgate_idx as u32 == self.idx && sc.rgate != NOGATE && sc.mgate_hook == 0 {
             c.gate_wait(sc.rgate, self.store, act.id);
         }
         c.perturb();
@@ -409,6 +415,9 @@ impl Middleware<St, Act> for ScriptedMw {
         let c = &self.ctx;
         let sc = c.script(act.script);
         c.evz(K::MBeg, self.store, act.id, self.idx * 4 + 1, st.digest(), effects.len() as u64, st.valid() as u8, act.script);
+        if sc.mgate_idx as u32 == self.idx && sc.rgate != NOGATE && sc.mgate_hook == 1 {
+            c.gate_wait(sc.rgate, self.store, act.id);
+        }
         c.perturb();
         if (self.idx as usize) < 3 {
             let mask = sc.mw_remove[self.idx as usize];
@@ -418,6 +427,18 @@ impl Middleware<St, Act> for ScriptedMw {
                 pos += 1;
                 keep
             });
+            if sc.mw_insert[self.idx as usize] {
+                // an effect of the middleware's own, put in front of the reducers' effects
+                let cx = c.clone();
+                let (store, a, tag) = (self.store, act.id, 0xE0 + self.idx);
+                effects.insert(0, Effect::Task(Box::new(move || {
+                    cx.ev(K::EBeg, store, a, tag, 0, 0, 0);
+                    if cx.count_progress {
+                        cx.c_eff.add(1);
+                    }
+                    cx.ev(K::EEnd, store, a, tag, 0, 0, 0);
+                })));
+            }
         }
         self.verdict(act, 1, &sc)
     }
